@@ -378,6 +378,8 @@ impl<'a> Context<'a> {
 
     /// Return the current [Token].
     fn token(&self) -> &T {
+        #[cfg(sylt_verif)]
+        sylt_common::verif::tick();
         &self.peek().0
     }
 
@@ -1133,6 +1135,8 @@ where
     let mut modules = Vec::new();
     let mut errors = Vec::new();
     while let Some(include) = to_visit.pop() {
+        #[cfg(sylt_verif)]
+        sylt_common::verif::tick();
         if visited.contains(&include) {
             continue;
         }
